@@ -29,9 +29,8 @@ type fullWrite struct {
 }
 
 func checkRead(r HRes, writes []fullWrite) string {
-	if r.Err != nil {
-		return "" // an error is not a value
-	}
+	// an error is not a value, but hits delivered before it were (the orchestrators
+	// forward them as they arrive): they are checked all the same
 	for _, h := range r.Hits {
 		ok := false
 		for _, w := range writes {
@@ -160,11 +159,17 @@ func execC05(t *testing.T, p Plan, src kernel.Source) Result {
 		}
 		// a second read right after must obey the same rule (gat may have touched things)
 		r2, ok := runTask(w, h, wire.Op{Kind: "get", Keys: []string{key}, Quiets: []bool{false}, Opaque: 901}, false)
-		if ok && r2.Panic == "" {
-			if m := checkRead(r2, writes); m != "" {
-				res.V = &Violation{Prop: "C05", Rule: "torn", Class: "torn:get-after-" + class, Msg: fmt.Sprintf("second read, %s: %s", where, m)}
-				return
-			}
+		if !ok {
+			res.V = &Violation{Prop: "C05", Rule: "hang", Class: "hang:get-after-" + class, Msg: fmt.Sprintf("the second read never returned (%s)", where)}
+			return
+		}
+		if r2.Panic != "" {
+			res.V = &Violation{Prop: "C05", Rule: "panic", Class: "panic:get-after-" + class, Msg: fmt.Sprintf("the second read panicked: %s (%s)", r2.Panic, where)}
+			return
+		}
+		if m := checkRead(r2, writes); m != "" {
+			res.V = &Violation{Prop: "C05", Rule: "torn", Class: "torn:get-after-" + class, Msg: fmt.Sprintf("second read, %s: %s", where, m)}
+			return
 		}
 		// when every write and the gat carried a lifetime, the key is nothing but a miss once
 		// the longest of them has passed: an add must then succeed and be read back whole
@@ -182,7 +187,11 @@ func execC05(t *testing.T, p Plan, src kernel.Source) Result {
 				return
 			}
 			r3, ok := runTask(w, h, wire.Op{Kind: "get", Keys: []string{key}, Quiets: []bool{false}, Opaque: 903}, false)
-			if ok && r3.Panic == "" {
+			if !ok || r3.Panic != "" {
+				res.V = &Violation{Prop: "C05", Rule: "hang", Class: "hang:get-after-add/" + class, Msg: fmt.Sprintf("get after expiry and add never returned / panicked (%s): %v", where, r3)}
+				return
+			}
+			{
 				if len(r3.Hits) != 1 {
 					res.V = &Violation{Prop: "C05", Rule: "remnant", Class: "remnant:get-after-add/" + class, Msg: fmt.Sprintf("%s; after expiry add succeeded but the following get returned %d values", where, len(r3.Hits))}
 					return
